@@ -830,7 +830,7 @@ def run_schedule2(task_a, task_b, files, funcs, n, m, block_wait=BLOCK_WAIT):
     return out.get("A"), out.get("B"), cnt["A"], cnt["B"], where.get("A"), where.get("B")
 
 
-def patcher_schedule_search(rel, qual, cap=24):
+def patcher_schedule_search(rel, qual, cap=24, helpers=None):
     """Two threads use the zero-argument context manager `qual` (with-body: nothing) with two context switches: A enters ... B
     enters ... A leaves ... B leaves, at every pair of line events of the context manager.  Afterwards the process-global state
     must be what it was (and what a sequential run leaves)."""
@@ -840,7 +840,7 @@ def patcher_schedule_search(rel, qual, cap=24):
     except Exception:  # noqa
         return None
     files = {os.path.join(REPO, rel)}
-    funcs = {qual}
+    funcs = {qual} | set(helpers or ())          # the context manager and the private helpers that patch / restore on its behalf
 
     def use():
         with cm():
@@ -994,7 +994,7 @@ def _find(req):
             return r
     if "/schedule#" in oid:
         for (r_, q_) in hint.get("patchers") or []:
-            r = patcher_schedule_search(r_, q_)
+            r = patcher_schedule_search(r_, q_, helpers=hint.get("functions"))
             if r:
                 r["found_by"] = "patcher schedule"
                 return r
